@@ -20,11 +20,15 @@ func (c *CasRef) MarshalJSON() ([]byte, error) {
 	if c == nil {
 		return []byte("0"), nil
 	}
+	if rawCasJSON {
+		return []byte("\"c:" + strconv.FormatUint(c.raw, 10) + "\""), nil
+	}
 	return []byte(strconv.Itoa(c.rank)), nil
 }
 
 // Trace collects the steps of one path; ranks are assigned when it is flushed.
 type Trace struct {
+	mu     sync.Mutex
 	refs   []*CasRef
 	steps  []any
 	intern map[uint64]int
@@ -33,6 +37,8 @@ type Trace struct {
 // C registers a concrete CAS. Until the trace is flushed its rank is a provisional id that is
 // equal for equal values (enough for change detection); Flush replaces it by the true rank.
 func (t *Trace) C(raw uint64) *CasRef {
+	t.mu.Lock()
+	defer t.mu.Unlock()
 	if t.intern == nil {
 		t.intern = map[uint64]int{0: 0}
 	}
